@@ -4,7 +4,7 @@
 id=$1; wt=${WT:-/tmp/wt6}/$id
 cd $wt || exit 2
 export CARGO_NET_OFFLINE=true
-for v in p q r; do
+for v in ${VARIANTS:-p q r}; do
   sd=$wt/SEED/$v
   [ -f $sd/patch.diff ] || continue
   git reset -q; git checkout -q -- . ; git clean -fdq -- src docs tests 2>/dev/null
